@@ -4,7 +4,7 @@ import json
 import random
 
 import slevel
-from common import Check, run_shards
+from common import VERIF, Check, run_shards
 
 HEADER = ("From TV Require Import Base Model.Wiring Model.Ticker Model.Component Model.Sim "
           "Oracle.SimCheck Oracle.SimOracle.")
@@ -141,7 +141,7 @@ def run_case(cfg, devs, speed, initial, stim, t_end=T_END):
 def load_corpus():
     import glob
     out = []
-    for f in sorted(glob.glob("/verif/corpus/*/*.json")):
+    for f in sorted(glob.glob(str(VERIF / "corpus" / "*" / "*.json"))):
         rp = json.load(open(f))
         if rp.get("kind") != "single":
             continue
